@@ -1,4 +1,7 @@
-import FcpptProofs.C11.Signal
+import FcpptProofs.C11.Iter
+import FcpptProofs.C11.Members
+import FcpptProofs.C11.Hold
+import FcpptProofs.C11.Reentrant
 set_option linter.unusedSimpArgs false
 set_option linter.unusedVariables false
 /-!
@@ -93,6 +96,385 @@ theorem list_live_iff {σ : Store} {R : Rings} (rep : Rep σ R) (k : Nat) :
     exact ⟨l, members_of_mem rep.wf hr⟩
   · rintro ⟨l, hl⟩
     exact rep.live_of_mem (mem_nodes.2 ⟨_, members_mem hl, by simp⟩)
+
+
+
+/-! ## What each operation does to the member lists
+
+The sentence of the property — "a list contains exactly the live, not moved-from elements that were linked into it (or into
+a list it took over), in link order" — operation by operation, as equations between the member lists before and after
+(`j` ranges over **all** lists).  Together with `walk_eq_members` (iteration = `members`) these say what iteration
+yields after any history. -/
+
+/-- the abstract state of every valid history is well-formed (rings duplicate-free, pairwise disjoint, heads in front) -/
+theorem wf_history {R : Rings} (wf : Wf R) (ops : List Op) (hv : validRun R ops = true) : Wf (Spec.run R ops) := by
+  induction ops generalizing R with
+  | nil => exact wf
+  | cons op ops ih =>
+    simp only [validRun, Bool.and_eq_true] at hv
+    exact ih (Wf_step wf op hv.1) hv.2
+
+/-- `new list`: the new list is empty, no other list changes -/
+theorem members_newList (R : Rings) (k j : Nat) :
+    members (Spec.step R (.newList k)) j = if j = k then some [] else members R j := by
+  simp only [Spec.step, members_cons_single]
+  by_cases e : j = k
+  · subst e; simp
+  · have : Node.head k ≠ Node.head j := fun h => e (by cases h; rfl)
+    simp [e, this]
+
+/-- `new T(list_k)`: the new element is the last member of list `k`, no other list changes -/
+theorem members_newElem (R : Rings) (e k j : Nat) :
+    members (Spec.step R (.newElem e k)) j =
+      if j = k then (members R k).map (fun l => l ++ [Node.elem e]) else members R j :=
+  members_push R k _ j
+
+/-- `delete e`: the element leaves whatever list it was in; order of the others unchanged -/
+theorem members_delElem {R : Rings} (wf : Wf R) (e j : Nat) :
+    members (Spec.step R (.delElem e)) j = (members R j).map (fun l => l.erase (Node.elem e)) := by
+  simp [Spec.step, members_erase wf]
+
+/-- `e->unlink()`: the same, and the element stays alive outside every list -/
+theorem members_unlink {R : Rings} (wf : Wf R) (e j : Nat) :
+    members (Spec.step R (.unlink e)) j = (members R j).map (fun l => l.erase (Node.elem e)) ∧
+    Node.elem e ∈ nodes (Spec.step R (.unlink e)) := by
+  simp [Spec.step, members_cons_single, members_erase wf, nodes_cons]
+
+/-- `new T(std::move(*e))`: the new element takes the place of `e` in whatever list `e` was a member of (nothing changes
+if `e` was in none); the moved-from `e` is in no list afterwards -/
+theorem members_moveCtor {R : Rings} (wf : Wf R) {e' e : Nat} (hv : valid R (.moveCtor e' e) = true) (j : Nat) :
+    members (Spec.step R (.moveCtor e' e)) j = (members R j).map (fun l => l.map (subst (.elem e) (.elem e'))) ∧
+    ∀ l, members (Spec.step R (.moveCtor e' e)) j = some l → Node.elem e ∉ l := by
+  simp only [valid, Bool.and_eq_true, decide_eq_true_eq] at hv
+  have hne : e ≠ e' := fun h => hv.1 (h ▸ hv.2)
+  have key : members (Spec.step R (.moveCtor e' e)) j = (members R j).map (fun l => l.map (subst (.elem e) (.elem e'))) := by
+    simp only [Spec.step]
+    split
+    · rename_i ha
+      rw [members_cons_single, if_neg (by simp)]
+      cases hm : members R j with
+      | none => rfl
+      | some l => simp [map_subst_of_not_mem (not_mem_members_of_alone wf hv.2 ha hm)]
+    · rw [members_cons_single, if_neg (by simp), members_replace_elem wf hv.1]
+  refine ⟨key, fun l hl => ?_⟩
+  rw [key] at hl
+  cases hm : members R j with
+  | none => simp [hm] at hl
+  | some l0 =>
+    simp only [hm, Option.map_some, Option.some.injEq] at hl
+    subst hl
+    simp only [List.mem_map, not_exists, not_and]
+    intro x _ hx
+    by_cases h : x = Node.elem e
+    · simp [subst, h] at hx; exact hne hx.symm
+    · simp [subst, h] at hx
+
+/-- `*a = std::move(*b)`: `a` leaves its list and takes the place of `b` (self-assignment: nothing happens) -/
+theorem members_moveAssign {R : Rings} (wf : Wf R) {a b : Nat} (hv : valid R (.moveAssign a b) = true) (j : Nat) :
+    members (Spec.step R (.moveAssign a b)) j =
+      if b = a then members R j
+      else (members R j).map (fun l => (l.erase (.elem a)).map (subst (.elem b) (.elem a))) := by
+  simp only [valid, Bool.and_eq_true, decide_eq_true_eq] at hv
+  by_cases e : b = a
+  · simp [Spec.step, e]
+  · simp only [Spec.step, e, ite_false]
+    have hw : Node.elem a ∉ nodes (eraseNode R (.elem a)) := fun h => ((mem_nodes_erase wf).1 h).2 rfl
+    have hb : Node.elem b ∈ nodes (eraseNode R (.elem a)) :=
+      (mem_nodes_erase wf).2 ⟨hv.2, fun h => e (by cases h; rfl)⟩
+    split
+    · rename_i ha
+      rw [members_cons_single, if_neg (by simp), members_erase wf, if_neg (by simp)]
+      cases hm : members R j with
+      | none => rfl
+      | some l =>
+        have hm' : members (eraseNode R (.elem a)) j = some (l.erase (.elem a)) := by
+          rw [members_erase wf, if_neg (by simp), hm]; rfl
+        simp [map_subst_of_not_mem (not_mem_members_of_alone (Wf_erase wf _) hb ha hm')]
+    · rw [members_cons_single, if_neg (by simp), members_replace_elem (Wf_erase wf _) hw, members_erase wf,
+        if_neg (by simp)]
+      cases members R j <;> rfl
+
+/-- `new list(std::move(*k))`: the new list has the members of `k`, `k` is empty, no other list changes -/
+theorem members_listMoveCtor {R : Rings} (wf : Wf R) {k' k : Nat} (hv : valid R (.listMoveCtor k' k) = true) (j : Nat) :
+    members (Spec.step R (.listMoveCtor k' k)) j =
+      if j = k' then members R k else if j = k then some [] else members R j := by
+  simp only [valid, Bool.and_eq_true, decide_eq_true_eq] at hv
+  have hkk : k ≠ k' := fun h => hv.1 (h ▸ hv.2)
+  simp only [Spec.step]
+  split
+  · rename_i ha
+    have h0 := members_of_alone_head wf hv.2 ha
+    rw [members_cons_single]
+    by_cases e1 : j = k'
+    · subst e1; simp [h0]
+    · have : Node.head k' ≠ Node.head j := fun h => e1 (by cases h; rfl)
+      by_cases e2 : j = k
+      · subst e2; simp [e1, this, h0]
+      · simp [e1, e2, this]
+  · rw [members_cons_single, members_replace_head wf hv.1]
+    by_cases e2 : j = k
+    · subst e2; simp [hkk]
+    · have : Node.head k ≠ Node.head j := fun h => e2 (by cases h; rfl)
+      simp [e2, this]
+
+/-- `*k = std::move(*k2)` (`k ≠ k2`): `k` has the members of `k2`, `k2` is empty, no other list changes; the former members
+of `k` stay alive but are in no list any more -/
+theorem members_listMoveAssign {R : Rings} (wf : Wf R) {k k2 : Nat} (hv : valid R (.listMoveAssign k k2) = true)
+    (hne : k2 ≠ k) (j : Nat) :
+    members (Spec.step R (.listMoveAssign k k2)) j =
+      if j = k then members R k2 else if j = k2 then some [] else members R j := by
+  simp only [valid, Bool.and_eq_true, decide_eq_true_eq] at hv
+  have hw : Node.head k ∉ nodes (eraseNode R (.head k)) := fun h => ((mem_nodes_erase wf).1 h).2 rfl
+  simp only [Spec.step, hne, ite_false]
+  split
+  · rename_i ha
+    have h0 := members_of_alone_head wf hv.2 ha
+    rw [members_cons_single]
+    by_cases e1 : j = k
+    · subst e1; simp [h0]
+    · have : Node.head k ≠ Node.head j := fun h => e1 (by cases h; rfl)
+      rw [if_neg this, members_erase wf, if_neg this, map_erase_head wf]
+      by_cases e2 : j = k2
+      · subst e2; simp [e1, h0]
+      · simp [e1, e2]
+  · rw [members_cons_single]
+    by_cases e2 : j = k2
+    · subst e2; simp [hne]
+    · have : Node.head k2 ≠ Node.head j := fun h => e2 (by cases h; rfl)
+      rw [if_neg this, members_replace_head (Wf_erase wf _) hw]
+      have hk2 : Node.head k ≠ Node.head k2 := fun h => hne (by cases h; rfl)
+      by_cases e1 : j = k
+      · subst e1
+        simp only [ite_true]
+        rw [members_erase wf, if_neg hk2, map_erase_head wf]
+      · have : Node.head k ≠ Node.head j := fun h => e1 (by cases h; rfl)
+        simp only [e1, e2, ite_false]
+        rw [members_erase wf, if_neg this, map_erase_head wf]
+
+/-- `delete list k`: the list is gone, no other list changes (its former members stay alive, in no list) -/
+theorem members_delList {R : Rings} (wf : Wf R) (k j : Nat) :
+    members (Spec.step R (.delList k)) j = if j = k then none else members R j := by
+  simp only [Spec.step, members_erase wf]
+  by_cases e : j = k
+  · subst e; simp
+  · have : Node.head k ≠ Node.head j := fun h => e (by cases h; rfl)
+    simp [e, this, map_erase_head wf]
+
+/-- the four operations the generic `std::swap` performs on two lists: `list tmp(std::move(a)); a = std::move(b); b = std::move(tmp);` and
+the destruction of `tmp` -/
+def listSwapOps (t k k2 : Nat) : List Op :=
+  [.listMoveCtor t k, .listMoveAssign k k2, .listMoveAssign k2 t, .delList t]
+
+/-- **`std::swap` of two lists exchanges their member lists and changes no other list; swapping a list with itself changes
+nothing** (all four steps are valid operations, so `history_rep` applies: no fault, links consistent). -/
+theorem list_swap_members {R : Rings} (wf : Wf R) {t k k2 : Nat} (hk : Node.head k ∈ nodes R) (hk2 : Node.head k2 ∈ nodes R)
+    (ht : Node.head t ∉ nodes R) :
+    validRun R (listSwapOps t k k2) = true ∧
+    ∀ j, members (Spec.run R (listSwapOps t k k2)) j =
+      if j = k then members R k2 else if j = k2 then members R k else if j = t then none else members R j := by
+  have live_iff : ∀ {R' : Rings}, Wf R' → ∀ j, Node.head j ∈ nodes R' ↔ members R' j ≠ none := fun wf' j => by
+    rw [Ne, members_none_iff wf']; exact Iff.symm Classical.not_not
+  have htk : t ≠ k := fun e => ht (e ▸ hk)
+  have htk2 : t ≠ k2 := fun e => ht (e ▸ hk2)
+  have mk : members R k ≠ none := (live_iff wf k).1 hk
+  have mk2 : members R k2 ≠ none := (live_iff wf k2).1 hk2
+  -- step 1
+  have v1 : valid R (.listMoveCtor t k) = true := by simp [valid, ht, hk]
+  have wf1 := Wf_step wf _ v1
+  have m1 := members_listMoveCtor wf v1
+  -- step 2
+  have hk1 : Node.head k ∈ nodes (Spec.step R (.listMoveCtor t k)) := (live_iff wf1 k).2 (by rw [m1]; simp [Ne.symm htk])
+  have hk21 : Node.head k2 ∈ nodes (Spec.step R (.listMoveCtor t k)) := (live_iff wf1 k2).2 (by
+    rw [m1]; by_cases e : k2 = k
+    · simp [e, Ne.symm htk]
+    · simpa [Ne.symm htk2, e] using mk2)
+  have ht1 : Node.head t ∈ nodes (Spec.step R (.listMoveCtor t k)) := (live_iff wf1 t).2 (by rw [m1]; simpa using mk)
+  have v2 : valid (Spec.step R (.listMoveCtor t k)) (.listMoveAssign k k2) = true := by simp [valid, hk1, hk21]
+  have wf2 := Wf_step wf1 _ v2
+  by_cases e : k2 = k
+  · -- self-swap
+    subst e
+    have r2 : Spec.step (Spec.step R (.listMoveCtor t k2)) (.listMoveAssign k2 k2) = Spec.step R (.listMoveCtor t k2) := by
+      simp [Spec.step]
+    have v3 : valid (Spec.step R (.listMoveCtor t k2)) (.listMoveAssign k2 t) = true := by simp [valid, hk1, ht1]
+    have wf3 := Wf_step wf1 _ v3
+    have m3 := members_listMoveAssign wf1 v3 htk
+    have ht3 : Node.head t ∈ nodes (Spec.step (Spec.step R (.listMoveCtor t k2)) (.listMoveAssign k2 t)) :=
+      (live_iff wf3 t).2 (by rw [m3]; simp [htk])
+    have v4 : valid (Spec.step (Spec.step R (.listMoveCtor t k2)) (.listMoveAssign k2 t)) (.delList t) = true := by
+      simp [valid, ht3]
+    refine ⟨by simp only [listSwapOps, validRun, v1, v2, r2, v3, v4, Bool.and_self], fun j => ?_⟩
+    simp only [listSwapOps, Spec.run, r2, members_delList wf3, m3, m1]
+    by_cases a : j = k2
+    · subst a; simp [Ne.symm htk]
+    · by_cases b : j = t
+      · subst b; simp [htk]
+      · simp [a, b]
+  · have m2 := members_listMoveAssign wf1 v2 e
+    have hk22 : Node.head k2 ∈ nodes (Spec.step (Spec.step R (.listMoveCtor t k)) (.listMoveAssign k k2)) :=
+      (live_iff wf2 k2).2 (by rw [m2]; simp [e])
+    have ht2 : Node.head t ∈ nodes (Spec.step (Spec.step R (.listMoveCtor t k)) (.listMoveAssign k k2)) :=
+      (live_iff wf2 t).2 (by simp only [m2, m1]; simpa [htk, htk2] using mk)
+    have v3 : valid (Spec.step (Spec.step R (.listMoveCtor t k)) (.listMoveAssign k k2)) (.listMoveAssign k2 t) = true := by
+      simp [valid, hk22, ht2]
+    have wf3 := Wf_step wf2 _ v3
+    have m3 := members_listMoveAssign wf2 v3 htk2
+    have ht3 : Node.head t ∈ nodes (Spec.step (Spec.step (Spec.step R (.listMoveCtor t k)) (.listMoveAssign k k2)) (.listMoveAssign k2 t)) :=
+      (live_iff wf3 t).2 (by rw [m3]; simp [htk2])
+    have v4 : valid (Spec.step (Spec.step (Spec.step R (.listMoveCtor t k)) (.listMoveAssign k k2)) (.listMoveAssign k2 t)) (.delList t) = true := by
+      simp [valid, ht3]
+    refine ⟨by simp only [listSwapOps, validRun, v1, v2, v3, v4, Bool.and_self], fun j => ?_⟩
+    simp only [listSwapOps, Spec.run, members_delList wf3, m3, m2, m1]
+    have ekk2 : k ≠ k2 := fun h => e h.symm
+    by_cases a : j = k
+    · subst a; simp [ekk2, Ne.symm htk, Ne.symm htk2, e]
+    · by_cases b : j = k2
+      · subst b; simp [a, htk, htk2, Ne.symm htk2]
+      · by_cases c : j = t
+        · subst c; simp [htk, htk2]
+        · simp [a, b, c]
+
+/-- an element is a member of at most one list, at most once -/
+theorem member_of_one_list {R : Rings} (wf : Wf R) {j1 j2 : Nat} {l1 l2 : List Node} {n : Node}
+    (h1 : members R j1 = some l1) (h2 : members R j2 = some l2) (m1 : n ∈ l1) (m2 : n ∈ l2) : j1 = j2 ∧ l1.Nodup := by
+  have := wf.uniq _ (members_mem h1) _ (members_mem h2) n (by simp [m1]) (by simp [m2])
+  cases this
+  exact ⟨rfl, (List.nodup_cons.1 (wf.nodup _ (members_mem h1))).2⟩
+
+/-! ## Iterator objects (`intrusive/iterator_impl.hpp`) -/
+
+/-- **`++` and `--` are mutually inverse on every live position** (element hook, list head or orphan), and the
+position reached is alive again — an iterator that stands on a live node can be moved in both directions for ever
+without touching a destroyed node. -/
+theorem iter_inc_dec_inverse {σ : Store} {R : Rings} (rep : Rep σ R) {n : Node} (hn : n ∈ nodes R) :
+    (∃ m, m ∈ nodes R ∧ iterIncrement σ (some n) = .ok (some m) ∧ iterDecrement σ (some m) = .ok (some n)) ∧
+    (∃ m, m ∈ nodes R ∧ iterDecrement σ (some n) = .ok (some m) ∧ iterIncrement σ (some m) = .ok (some n)) := by
+  have inv := ringInv_of_rep rep n (rep.live_of_mem hn)
+  have hl := rep.live_of_mem hn
+  refine ⟨⟨σ.next n, rep.next_mem hn, iterIncrement_live hl, ?_⟩, ⟨σ.prev n, rep.prev_mem hn, iterDecrement_live hl, ?_⟩⟩
+  · rw [iterDecrement_live inv.1, inv.2.2.1]
+  · rw [iterIncrement_live inv.2.1, inv.2.2.2]
+
+/-- **Positions**: in a represented store, `begin() + i` stands on the `i`-th member of the list, `begin() + size`
+is `end()`; `end() - (i+1)` stands on the `i`-th member from the back, `end() - (size+1)` is `end()` again
+(`begin()`/`end()` of the const and the non-const overload have the same body). -/
+theorem iter_positions {σ : Store} {R : Rings} (rep : Rep σ R) {k : Nat} {l : List Node}
+    (hm : members R k = some l) :
+    (∀ i (hi : i < l.length), (listBegin σ (.head k) >>= iterAdvance σ i) = .ok (iterAt l[i])) ∧
+    (listBegin σ (.head k) >>= iterAdvance σ l.length) = .ok (listEnd (.head k)) ∧
+    (∀ i (hi : i < l.length), iterRetreat σ (i + 1) (listEnd (.head k)) = .ok (iterAt l[l.length - 1 - i])) ∧
+    iterRetreat σ (l.length + 1) (listEnd (.head k)) = .ok (listEnd (.head k)) := by
+  have hr := members_mem hm
+  have hring : Path σ (.head k) l (.head k) := rep.ring _ hr
+  have hlive : ∀ x ∈ Node.head k :: l, σ.live x = true := fun x hx => rep.live_of_mem (mem_nodes.2 ⟨_, hr, hx⟩)
+  have hb : ∀ n, (listBegin σ (.head k) >>= iterAdvance σ n) = iterAdvance σ (n + 1) (listEnd (.head k)) := by
+    intro n
+    simp [listBegin, listEnd, iterAdvance, iterIncrement, bind, Except.bind]
+  have fwd := iterAdvance_path hring hlive
+  have hflip : Path σ.flip (.head k) l.reverse (.head k) := Path_flip hring
+  have bwd := iterAdvance_path (σ := σ.flip) hflip (fun x hx => hlive x (by simp at hx ⊢; exact hx))
+  refine ⟨fun i hi => ?_, ?_, fun i hi => ?_, ?_⟩
+  · rw [hb, listEnd, fwd i (by simp; omega)]
+    simp [iterAt, List.getElem_append_left hi]
+  · rw [hb, listEnd, fwd l.length (by simp)]
+    simp
+  · rw [iterRetreat_flip, listEnd, bwd i (by simp; omega)]
+    have hi' : i < l.reverse.length := by simpa using hi
+    simp [iterAt, List.getElem_append_left hi', List.getElem_reverse]
+  · rw [iterRetreat_flip, listEnd, bwd l.length (by simp)]
+    simp
+
+/-- **Dereferencing** an iterator that stands on a member of a list yields that element (never a fault); `end()` and the
+default-constructed iterator are not dereferenceable. -/
+theorem iter_deref {σ : Store} {R : Rings} (rep : Rep σ R) {k : Nat} {l : List Node}
+    (hm : members R k = some l) :
+    (∀ n ∈ l, ∃ e, n = Node.elem e ∧ iterDeref σ (iterAt n) = .ok e) ∧
+    (∃ f, iterDeref σ (listEnd (.head k)) = .error f) ∧ (∃ f, iterDeref σ iterDefault = .error f) := by
+  have hr := members_mem hm
+  refine ⟨fun n hn => ?_, ⟨_, rfl⟩, ⟨_, rfl⟩⟩
+  obtain ⟨e, rfl⟩ := rep.wf.tail _ hr n hn
+  have := rep.live_of_mem (n := Node.elem e) (mem_nodes.2 ⟨_, hr, by simp [hn]⟩)
+  exact ⟨e, rfl, by simp [iterDeref, iterAt, this]⟩
+
+/-- **Equality of iterators is equality of positions**: `begin() + i == begin() + j` iff `i = j` (members are pairwise
+distinct), no `begin() + i` with `i < size` equals `end()`, and `empty()` is `begin() == end()` is "no members". -/
+theorem iter_equal {σ : Store} {R : Rings} (rep : Rep σ R) {k : Nat} {l : List Node}
+    (hm : members R k = some l) :
+    (∀ i j (hi : i < l.length) (hj : j < l.length), iterEqual (iterAt l[i]) (iterAt l[j]) = decide (i = j)) ∧
+    (∀ i (hi : i < l.length), iterEqual (iterAt l[i]) (listEnd (.head k)) = false) ∧
+    listEmpty σ (.head k) = .ok l.isEmpty ∧
+    (∀ b, listBegin σ (.head k) = .ok b → iterEqual b (listEnd (.head k)) = l.isEmpty) := by
+  have hr := members_mem hm
+  have nd := rep.wf.nodup _ hr
+  have hh : σ.live (.head k) = true := rep.live_of_mem (mem_nodes.2 ⟨_, hr, by simp⟩)
+  have hring : Path σ (.head k) l (.head k) := rep.ring _ hr
+  have hnext : σ.next (.head k) = (l ++ [Node.head k])[0]'(by simp) := by
+    cases l with
+    | nil => exact hring.1
+    | cons y ys => exact hring.1.1
+  have hne : ∀ i (hi : i < l.length), l[i] ≠ Node.head k := fun i hi e =>
+    (List.nodup_cons.1 nd).1 (e ▸ List.getElem_mem hi)
+  have hbe : (σ.next (.head k) == Node.head k) = l.isEmpty := by
+    cases l with
+    | nil => simp [hnext]
+    | cons y ys =>
+      have := hne 0 (by simp)
+      simp only [List.getElem_cons_zero] at this
+      simp [hnext, this]
+  refine ⟨fun i j hi hj => ?_, fun i hi => ?_, ?_, fun b hb => ?_⟩
+  · have := List.getElem_inj (h₀ := hi) (h₁ := hj) (List.nodup_cons.1 nd).2
+    simp only [iterEqual, iterAt, Option.some_beq_some]
+    by_cases e : i = j
+    · subst e; simp
+    · have : l[i] ≠ l[j] := fun h => e (this.1 h)
+      simp [e, this]
+  · simp [iterEqual, iterAt, listEnd, hne i hi]
+  · simp [listEmpty, rdNext, hh, bind, Except.bind, hbe]
+  · simp [listBegin, rdNext, hh, bind, Except.bind] at hb
+    subst hb
+    simpa [iterEqual, listEnd] using hbe
+
+/-- **Post-increment / post-decrement** (`fcppt::iterator::base`): the returned iterator is the old position, the
+iterator itself moves exactly like `++it` / `--it`. -/
+theorem iter_post_ops (σ : Store) (it : Iter) :
+    iterPostInc σ it = (iterIncrement σ it).map (fun it' => (it, it')) ∧
+    iterPostDec σ it = (iterDecrement σ it).map (fun it' => (it, it')) := by
+  constructor
+  · simp only [iterPostInc, bind, Except.bind, Except.map]
+  · simp only [iterPostDec, bind, Except.bind, Except.map]
+
+/-- **An iterator kept across operations stays usable as long as its node lives**: after any valid history, an iterator
+standing on any live node (however it was obtained, before whatever operations) can be incremented and decremented, and
+lands on a live node; if it stands on a member of list `k` at index `i`, then `size - i` increments reach `end()`. -/
+theorem iter_survives_history (ops : List Op) (hv : validRun [] ops = true) {σ' : Store}
+    (hrun : run Store.empty ops = .ok σ') {n : Node} (hn : σ'.live n = true) :
+    (∃ m, σ'.live m = true ∧ iterIncrement σ' (some n) = .ok (some m)) ∧
+    (∃ m, σ'.live m = true ∧ iterDecrement σ' (some n) = .ok (some m)) ∧
+    (∀ k l i (hi : i < l.length), members (Spec.run [] ops) k = some l → l[i] = n →
+      iterAdvance σ' (l.length - i) (some n) = .ok (listEnd (.head k))) := by
+  obtain ⟨σ'', h, rep⟩ := history_rep Rep_empty ops hv
+  rw [hrun] at h; cases h
+  have hm := (rep.live n).1 hn
+  obtain ⟨⟨m1, a1, b1, _⟩, ⟨m2, a2, b2, _⟩⟩ := iter_inc_dec_inverse rep hm
+  refine ⟨⟨m1, rep.live_of_mem a1, b1⟩, ⟨m2, rep.live_of_mem a2, b2⟩, ?_⟩
+  intro k l i hi hmem hli
+  -- split the ring at position i: the rest of the path from l[i] to the head
+  have hr := members_mem hmem
+  have hring : Path σ' (.head k) l (.head k) := rep.ring _ hr
+  have hsplit : l = l.take i ++ l[i] :: l.drop (i + 1) := by
+    rw [← List.drop_eq_getElem_cons hi, List.take_append_drop]
+  rw [hsplit] at hring
+  have hrest := (Path_append.1 hring).2
+  have hlive : ∀ x ∈ l[i] :: l.drop (i + 1), σ'.live x = true := fun x hx =>
+    rep.live_of_mem (n := x) (mem_nodes.2 ⟨_, hr, by
+      rcases List.mem_cons.1 hx with e | e
+      · rw [e]; exact List.mem_cons_of_mem _ (List.getElem_mem hi)
+      · exact List.mem_cons_of_mem _ (List.mem_of_mem_drop e)⟩)
+  have := iterAdvance_path hrest hlive (l.drop (i + 1)).length (by simp)
+  rw [← hli]
+  have hlen : l.length - i = (l.drop (i + 1)).length + 1 := by simp; omega
+  rw [hlen, this]
+  simp [listEnd]
 
 /-! ### non-vacuity and the abstract operations on a concrete history -/
 
@@ -276,6 +658,25 @@ theorem call_invokes_live_once_in_order {st : Sig.State} {R : Rings} (h : SRep s
   · simp only [Sig.invoked, walk_members h.rep hm hf, bind, Except.bind]
     exact h3
 
+/-- **The void specialisation** `object<void(Args...), Base>::operator()` (a range-`for` over `connections()` instead of a
+fold): the loop terminates, touches no dead connection and invokes exactly the callbacks of the live connections of the
+signal, once each, in connection order — the same list `Sig.invoked` that the fold of the non-void signal runs over. -/
+theorem callVoid_invokes_live_once_in_order {st : Sig.State} {R : Rings} (h : SRep st R) {s : Nat} {l : List Node}
+    (hm : members R s = some l) {fuel : Nat} (hf : l.length ≤ fuel) :
+    ∃ (xs : List Nat) (cs : List Sig.Conn), l = xs.map Node.elem ∧ xs.Nodup ∧ xs.map st.conn = cs.map some ∧
+      Sig.callVoid st s fuel = .ok (cs.map (·.callback)) ∧ Sig.callVoid st s fuel = Sig.invoked st s fuel := by
+  obtain ⟨xs, cs, h1, h2, h3, h4⟩ := call_invokes_live_once_in_order h hm hf
+  have hr := members_mem hm
+  have hring : Path st.store (.head s) l (.head s) := h.rep.ring _ hr
+  have nd := h.rep.wf.nodup _ hr
+  have hh : st.store.live (.head s) = true := h.rep.live_of_mem (mem_nodes.2 ⟨_, hr, by simp⟩)
+  have key : Sig.callVoid st s fuel = .ok (cs.map (·.callback)) := by
+    subst h1
+    have := callVoidFrom_path (st := st) (h := .head s) (cs := cs) (fuel := fuel) [] hring
+      (fun x hx => h.rep.live_of_mem (mem_nodes.2 ⟨_, hr, by simp [hx]⟩)) h3 (List.nodup_cons.1 nd).1 (by simpa using hf)
+    simpa [Sig.callVoid, rdNext, hh, bind, Except.bind] using this
+  exact ⟨xs, cs, h1, h2, h3, key, by rw [key, h4]⟩
+
 /-- **The result of a call is the left fold of the combiner over the callback results, starting from
 the initial value** (`fs` = the callbacks invoked; with no connection the initial value is returned and
 the combiner is not needed). -/
@@ -328,8 +729,205 @@ theorem unregister_only_on_death {st st' : Sig.State} {op : Sig.Op}
   | moveAssign s s2 => simp only [Sig.step, bind, Except.bind] at hs; split at hs <;> cases hs; rfl
   | delSig s => simp only [Sig.step, bind, Except.bind] at hs; split at hs <;> cases hs; rfl
 
+
+/-! ## Owners of connections: `auto_connection`, `optional_auto_connection`, `auto_connection_container`
+
+"…invokes exactly the callbacks whose connection object is still alive": a connection object is alive exactly as long as
+some owner holds its `auto_connection`. -/
+
+def holdRun (st : Hold.State) : List Hold.Op → M Hold.State
+  | [] => .ok st
+  | op :: ops => do
+    let st ← Hold.step st op
+    holdRun st ops
+
+/-- every operation of an owner history is valid where it is applied (who-holds-what is threaded by the pure `ownStep`) -/
+def holdValidRun (own : Nat → List Nat) (R : Rings) : List Hold.Op → Bool
+  | [] => true
+  | op :: ops => holdValid own R op && holdValidRun (ownStep own op) (holdStep own R op) ops
+
+def holdSpecRun (own : Nat → List Nat) (R : Rings) : List Hold.Op → Rings
+  | [] => R
+  | op :: ops => holdSpecRun (ownStep own op) (holdStep own R op) ops
+
+/-- **One owner operation** (connect into an owner, reset / erase / clear / overwrite an owner, move an `auto_connection`
+between owners, swap owners, any operation on whole signals): no fault, the connection lists stay represented, and
+afterwards the live connections are exactly the ones some owner holds, each in exactly one slot. -/
+theorem hold_step_inv {st : Hold.State} {R : Rings} (h : Owned st R) (op : Hold.Op)
+    (hv : holdValid st.own R op = true) :
+    ∃ st', Hold.step st op = .ok st' ∧ st'.own = ownStep st.own op ∧ Owned st' (holdStep st.own R op) :=
+  hold_step_owned h op hv
+
+/-- **Every owner history** -/
+theorem hold_history_inv {st : Hold.State} {R : Rings} (h : Owned st R) (ops : List Hold.Op)
+    (hv : holdValidRun st.own R ops = true) :
+    ∃ st', holdRun st ops = .ok st' ∧ Owned st' (holdSpecRun st.own R ops) := by
+  induction ops generalizing st R with
+  | nil => exact ⟨st, rfl, h⟩
+  | cons op ops ih =>
+    simp only [holdValidRun, Bool.and_eq_true] at hv
+    obtain ⟨s1, h1, o1, r1⟩ := hold_step_owned h op hv.1
+    obtain ⟨s2, h2, r2⟩ := ih r1 (by rw [o1]; exact hv.2)
+    exact ⟨s2, by simp [holdRun, h1, bind, Except.bind, h2], by simpa [holdSpecRun, o1] using r2⟩
+
+/-- **A signal invokes exactly the callbacks whose connection object is still held by someone**: after any owner history
+from the empty program, a call of signal `s` invokes callbacks of pairwise distinct connections, every one of them held by
+exactly one owner; conversely a connection that no owner holds is dead (not a node of any ring) and so not invoked by any
+signal. -/
+theorem invoked_iff_held (ops : List Hold.Op) (hv : holdValidRun Hold.State.empty.own [] ops = true) {st' : Hold.State}
+    (hrun : holdRun Hold.State.empty ops = .ok st') {s : Nat} {l : List Node}
+    (hm : members (holdSpecRun Hold.State.empty.own [] ops) s = some l) {fuel : Nat} (hf : l.length ≤ fuel) :
+    ∃ (xs : List Nat) (cs : List Sig.Conn), l = xs.map Node.elem ∧ xs.Nodup ∧ xs.map st'.sig.conn = cs.map some ∧
+      Sig.invoked st'.sig s fuel = .ok (cs.map (·.callback)) ∧
+      (∀ x ∈ xs, ∃ o, x ∈ st'.own o ∧ ∀ o', x ∈ st'.own o' → o' = o) ∧
+      (∀ x, (∀ o, x ∉ st'.own o) → x ∉ xs ∧ st'.sig.store.live (.elem x) = false) := by
+  obtain ⟨s2, h2, ow⟩ := hold_history_inv Owned_empty ops hv
+  rw [hrun] at h2; cases h2
+  obtain ⟨xs, cs, h1, h2, h3, h4⟩ := call_invokes_live_once_in_order ow.srep hm hf
+  have hr := members_mem hm
+  refine ⟨xs, cs, h1, h2, h3, h4, fun x hx => ?_, fun x hx => ?_⟩
+  · have : Node.elem x ∈ nodes (holdSpecRun Hold.State.empty.own [] ops) :=
+      mem_nodes.2 ⟨_, hr, by rw [h1]; simp [hx]⟩
+    obtain ⟨o, ho⟩ := (ow.live x).1 this
+    exact ⟨o, ho, fun o' ho' => ow.disj _ _ x ho' ho⟩
+  · have hdead : Node.elem x ∉ nodes (holdSpecRun Hold.State.empty.own [] ops) := fun hn => by
+      obtain ⟨o, ho⟩ := (ow.live x).1 hn
+      exact hx o ho
+    refine ⟨fun hxs => hdead (mem_nodes.2 ⟨_, hr, by rw [h1]; simp [hxs]⟩), ?_⟩
+    exact ow.srep.rep.dead_of_not_mem hdead
+
+/-- **Destroying several connections at once** (`clear()`, destruction of or assignment over a container): every one of
+them dies, nothing else does, and each unregister function runs exactly as many times as connections carrying it died —
+once per dying connection. -/
+theorem clear_unregisters_each_once {st : Hold.State} {R : Rings} (h : Owned st R) (o : Nat) :
+    ∃ st', Hold.step st (.clear o) = .ok st' ∧ st'.own o = [] ∧
+      st'.sig.conn = (fun x => if x ∈ st.own o then none else st.sig.conn x) ∧
+      (∀ u, st'.sig.unregCount u = st.sig.unregCount u +
+        ((st.own o).filter (fun x => decide ((st.sig.conn x).bind (·.unreg) = some u))).length) ∧
+      (∀ n, n ∈ nodes (holdStep st.own R (.clear o)) ↔ n ∈ nodes R ∧ ∀ x ∈ st.own o, n ≠ Node.elem x) := by
+  obtain ⟨s1, h1, _, c1, _, u1⟩ := killAll_rep h.srep (st.own o) (h.nodup o) (fun x hx => (h.live x).2 ⟨o, hx⟩)
+  refine ⟨{ sig := s1, own := Hold.setOwn st.own o [] }, by simp [Hold.step, h1, bind, Except.bind],
+    by simp [Hold.setOwn], c1, u1, fun n => ?_⟩
+  simp only [holdStep]
+  exact mem_nodes_eraseAll h.srep.rep.wf _
+
+/-- non-vacuity: an owner history with every kind of operation, over an `int` signal with unregister functions and a plain
+void signal; two connections die in one `clear` -/
+example : holdValidRun Hold.State.empty.own []
+    [.sig (.newSig 0 (some 1)), .connect 0 0 0 5 (some 1), .connect 1 1 0 6 (some 1), .sig (.newSig 1 none),
+     .connect 2 2 1 7 none, .transfer 0 0 16, .transfer 1 0 16, .transfer 2 0 16, .swap 16 17, .release 17 1,
+     .sig (.moveCtor 2 0), .connect 3 3 2 8 (some 2), .clear 0, .transfer 3 0 0, .clear 17, .sig (.delSig 2), .release 0 0] = true := by
+  decide
+
+
+/-! ## Calls whose callbacks change the set of connections -/
+
+/-- **A call whose callbacks let go of connections or connect new callbacks never touches a destroyed connection**, as long
+as no callback lets go of the connection it is itself running from (`loopSafe`, a condition on the caller).  For a signal
+`s` of an owned program state the call either needs more fuel (callbacks that keep connecting new callbacks), or hits the
+moved-from combiner of a non-void signal before anything ran, or returns — and then the program state is again owned and
+represented, for the rings obtained from `R` by the effects that ran (`res.trace`), and `s` is still alive. -/
+theorem rcall_never_touches_dead (act : Nat → Hold.Act) (cb : Nat → Nat → Nat) (comb : Nat → Nat → Nat → Nat) (isVoid : Bool)
+    {st : Hold.State} {R : Rings} (h : Owned st R) {s : Nat} (hs : Node.head s ∈ nodes R) (fuel init arg : Nat)
+    (hsafe : loopSafe act (.head s) fuel st (st.sig.store.next (.head s)) = true) :
+    Hold.rcall act cb comb isVoid st s fuel init arg = .error .fuel ∨
+    (Hold.rcall act cb comb isVoid st s fuel init arg = .error .emptyDeref ∧ isVoid = false ∧ st.sig.combiner s = none) ∨
+    ∃ res, Hold.rcall act cb comb isVoid st s fuel init arg = .ok res ∧ Owned res.st (Spec.run R res.trace) ∧
+      Node.head s ∈ nodes (Spec.run R res.trace) := by
+  have hl := h.srep.rep.live_of_mem hs
+  obtain ⟨r, hr, hm⟩ := mem_nodes.1 hs
+  have hsr : SameRing R (.head s) (st.sig.store.next (.head s)) := ⟨r, hr, hm, (Ring_next (h.srep.rep.ring _ hr) hm).1⟩
+  simp only [Hold.rcall, rdNext, hl, ite_true, bind, Except.bind]
+  by_cases e : st.sig.store.next (.head s) = .head s
+  · simp only [e, ite_true]
+    exact Or.inr (Or.inr ⟨_, rfl, h, hs⟩)
+  · simp only [e, ite_false]
+    cases isVoid with
+    | true =>
+      simp only [ite_true]
+      rcases callLoop_safe act cb none arg s fuel [] init [] h hsr hsafe with a | ⟨res, tr, a, b, c, d⟩
+      · exact Or.inl a
+      · simp only [List.nil_append] at b
+        exact Or.inr (Or.inr ⟨res, a, by rw [b]; exact c, by rw [b]; exact d⟩)
+    | false =>
+      simp only [Bool.false_eq_true, ite_false]
+      cases hc : st.sig.combiner s with
+      | none => exact Or.inr (Or.inl ⟨rfl, by simp⟩)
+      | some c0 =>
+        rcases callLoop_safe act cb (some (comb c0)) arg s fuel [] init [] h hsr hsafe with a | ⟨res, tr, a, b, c, d⟩
+        · exact Or.inl a
+        · simp only [List.nil_append] at b
+          exact Or.inr (Or.inr ⟨res, a, by rw [b]; exact c, by rw [b]; exact d⟩)
+
+/-- **Without effects the loop is the plain call**: the callbacks of the live connections in connection order, the
+accumulator folded from the left (non-void) or left alone (void), the program state untouched. -/
+theorem rcall_without_effects (cb : Nat → Nat → Nat) (comb : Nat → Nat → Nat → Nat) {st : Hold.State} {R : Rings}
+    (h : SRep st.sig R) {s : Nat} {l : List Node} (hm : members R s = some l) {fuel : Nat} (hf : l.length ≤ fuel)
+    (init arg : Nat) :
+    ∃ fs, Sig.invoked st.sig s fuel = .ok fs ∧
+      Hold.rcall (fun _ => .none) cb comb true st s fuel init arg = .ok ⟨st, fs, init, []⟩ ∧
+      ∀ c, st.sig.combiner s = some c →
+        Hold.rcall (fun _ => .none) cb comb false st s fuel init arg =
+          .ok ⟨st, fs, fs.foldl (fun acc f => comb c acc (cb f arg)) init, []⟩ := by
+  obtain ⟨xs, cs, h1, _, h3, h4⟩ := call_invokes_live_once_in_order h hm hf
+  have hr := members_mem hm
+  have hring : Path st.sig.store (.head s) l (.head s) := h.rep.ring _ hr
+  have nd := h.rep.wf.nodup _ hr
+  have hh : st.sig.store.live (.head s) = true := h.rep.live_of_mem (mem_nodes.2 ⟨_, hr, by simp⟩)
+  subst h1
+  have key := fun cmb => callLoop_path_noeffect cb cmb arg (st := st) (h := .head s) (cs := cs) (fuel := fuel) [] init [] hring
+    (fun x hx => h.rep.live_of_mem (mem_nodes.2 ⟨_, hr, by simp [hx]⟩)) h3 (List.nodup_cons.1 nd).1 (by simpa using hf)
+  refine ⟨cs.map (·.callback), h4, ?_, fun c hc => ?_⟩
+  · simp only [Hold.rcall, rdNext, hh, ite_true, bind, Except.bind]
+    split
+    · rename_i e
+      -- no connection at all
+      cases xs with
+      | nil => cases cs with
+        | nil => rfl
+        | cons c cs => simp at h3
+      | cons x xs =>
+        have : st.sig.store.next (.head s) = .elem x := hring.1.1
+        rw [this] at e; cases e
+    · simp only [ite_true, key none, List.nil_append]
+      have : ∀ (fs : List Nat) (a : Nat), fs.foldl (fun ac f => accStep none ac (cb f arg)) a = a := by
+        intro fs; induction fs with
+        | nil => intro a; rfl
+        | cons f t ih => intro a; simpa [accStep] using ih a
+      rw [this]
+  · simp only [Hold.rcall, rdNext, hh, ite_true, bind, Except.bind]
+    split
+    · rename_i e
+      cases xs with
+      | nil => cases cs with
+        | nil => rfl
+        | cons c cs => simp at h3
+      | cons x xs =>
+        have : st.sig.store.next (.head s) = .elem x := hring.1.1
+        rw [this] at e; cases e
+    · simp only [Bool.false_eq_true, ite_false, hc, key (some (comb c)), List.nil_append]
+      rfl
+
+/-- the three things that can happen, on a signal with connections 0, 1, 2 (callbacks 10, 11, 12) held by holders 0, 1, 2:
+a callback lets go of a later connection — it is not invoked; a callback connects a new callback — it is invoked in the same
+call; a callback lets go of its own connection — `++it` reads the destroyed hook (the model's heap-use-after-free), which
+is why `loopSafe` excludes it. -/
+def reentrantDemo : Hold.State :=
+  match holdRun Hold.State.empty [.sig (.newSig 0 none), .connect 0 0 0 10 none, .connect 1 1 0 11 none, .connect 2 2 0 12 none] with
+  | .ok st => st
+  | .error _ => Hold.State.empty
+
+example : (Hold.rcall (fun f => if f = 10 then .reset 1 else .none) (fun _ _ => 0) (fun _ _ _ => 0) true reentrantDemo 0 8 0 0).toOption.map (·.log)
+    = some [10, 12] := by decide
+example : (Hold.rcall (fun f => if f = 11 then .connect 3 0 13 none else .none) (fun _ _ => 0) (fun _ _ _ => 0) true reentrantDemo 0 8 0 0).toOption.map (·.log)
+    = some [10, 11, 12, 13] := by decide
+example : faults (Hold.rcall (fun f => if f = 11 then .reset 1 else .none) (fun _ _ => 0) (fun _ _ _ => 0) true reentrantDemo 0 8 0 0) .oob = true ∧
+    loopSafe (fun f => if f = 11 then .reset 1 else .none) (.head 0) 8 reentrantDemo (reentrantDemo.sig.store.next (.head 0)) = false ∧
+    loopSafe (fun f => if f = 10 then .reset 1 else .none) (.head 0) 8 reentrantDemo (reentrantDemo.sig.store.next (.head 0)) = true := by
+  decide
+
 /-- non-vacuity: a signal history with connect, death, move, move-assignment -/
-example : sigValidRun [] [.newSig 0 1, .connect 0 0 5 (some 1), .connect 1 0 6 none, .moveCtor 1 0,
+example : sigValidRun [] [.newSig 0 (some 1), .connect 0 0 5 (some 1), .connect 1 0 6 none, .moveCtor 1 0,
     .connect 2 0 7 (some 2), .moveAssign 0 1, .disconnect 0, .delSig 0, .disconnect 1] = true := by decide
 
 end Fcppt.C11
